@@ -260,3 +260,44 @@ Definition run_heap_alias (spare : nat -> nat) (canon : list cdiag -> list cdiag
 (* a task slice lives in the heap *)
 Definition slice_ok (h : heap) (s : slice) : Prop :=
   match sl_arr s with None => True | Some a => (a < length h)%nat /\ (sl_len s <= length (nth a h []))%nat end.
+
+(* ---- which tasks a Run visits: the walk over the recorded forward edges ----
+   incremental.Run collects the reports of the tasks reachable from its roots over task.deps, the
+   forward edges that Resolve records.  Event model of one executor: a running (not yet completed)
+   task c that calls Resolve on a declared dependency d records the edge c -> d (XEdge: on every
+   call, whether d is already memoised or not); a task completes (XComplete) once every declared
+   dependency is completed and its edge is recorded (Resolve stores the edge before it waits for
+   the dependency).  deps_of is what the query's Execute asks for, a function of the query.
+   Histories = any sequence of enabled events: any number of Runs with any roots, any schedule. *)
+From Coq Require Import Relations.Relation_Operators.
+Section RunWalk.
+  Variable deps_of : nat -> list nat.
+
+  Record xstate := mkx { x_done : list nat; x_edges : list (nat * nat) }.
+  Definition x_init : xstate := mkx [] [].
+
+  Inductive xevent := XEdge (caller dep : nat) | XComplete (t : nat).
+
+  Definition x_enabled (st : xstate) (e : xevent) : Prop :=
+    match e with
+    | XEdge c d => In d (deps_of c) /\ ~ In c (x_done st)
+    | XComplete t => ~ In t (x_done st) /\
+                     forall d, In d (deps_of t) -> In d (x_done st) /\ In (t, d) (x_edges st)
+    end.
+  Definition x_apply (st : xstate) (e : xevent) : xstate :=
+    match e with
+    | XEdge c d => mkx (x_done st) ((c, d) :: x_edges st)
+    | XComplete t => mkx (t :: x_done st) (x_edges st)
+    end.
+  Inductive x_reachable : xstate -> Prop :=
+  | xr_init : x_reachable x_init
+  | xr_step : forall st e, x_reachable st -> x_enabled st e -> x_reachable (x_apply st e).
+
+  Definition x_edge (st : xstate) (a b : nat) : Prop := In (a, b) (x_edges st).
+  Definition x_visited (st : xstate) (roots : list nat) (t : nat) : Prop :=
+    exists r, In r roots /\ clos_refl_trans nat (x_edge st) r t.
+  Definition d_edge (a b : nat) : Prop := In b (deps_of a).
+  Definition d_reach (roots : list nat) (t : nat) : Prop :=
+    exists r, In r roots /\ clos_refl_trans nat d_edge r t.
+End RunWalk.
+
